@@ -995,6 +995,26 @@ def gen_reallog_stalled_recipient(rng):
     return sc
 
 
+def gen_reallog_long_stall(rng, ms=None):
+    """a recipient that does not read for longer than any plausible "give up" timer of a hand-over (2.5 - 3.5 s of real
+    time; the thorough tier goes beyond 5 s) while more messages than the writer's queue holds wait behind it: the
+    hand-over of a log entry has no deadline — every message still reaches every subscriber once reading resumes"""
+    sc = Scenario(rng, 1, 1, real_log=True)
+    p = sc.connect(node=0)
+    slow = sc.connect(node=0)
+    fast = sc.connect(node=0)
+    sc.sub(slow, [("a/#", 0)])
+    sc.sub(fast, [("a/b", 0)])
+    sc.burst(p, "a/b", 1, 0, 3)
+    sc.ops.append("longsettle 1")
+    sc.ops.append(f"stall {slow} {ms or rng.choice([2600, 3100, 3500])}")
+    sc.burst(p, "a/b", 1, 3, rng.choice([45, 60, 80]))
+    sc.ops.append("longsettle 0")
+    sc.burst(p, "a/b", 1, 200, 5)
+    sc.check_state()
+    return sc
+
+
 def gen_reallog_stalled_far_behind(rng):
     """the same with a backlog of several log segments (2600 messages, segments of 500) building up behind the stalled
     recipient: whatever the log does to bound its size, nothing that was not handed over may go"""
@@ -1061,10 +1081,19 @@ def add_refused_connect_suite(c, samples):
 
 def add_reallog_suites(c, samples):
     # the first messages a node ever stores, and a history that crosses the first truncation point
-    scs = [gen_reallog(c.rng, 3), gen_reallog_stalled_recipient(c.rng), gen_reallog_stalled_far_behind(c.rng), gen_reallog(c.rng, 2300), gen_reallog_backlog(c.rng)]
+    scs = [gen_reallog(c.rng, 3), gen_reallog_stalled_recipient(c.rng), gen_reallog_long_stall(c.rng), gen_reallog_stalled_far_behind(c.rng), gen_reallog(c.rng, 2300), gen_reallog_backlog(c.rng)]
     if c.tier != "quick":
-        scs += [gen_reallog(c.rng, 520, nn=2), gen_reallog(c.rng, 4300), gen_reallog(c.rng, 3200, nn=2)]
+        scs += [gen_reallog_long_stall(c.rng, 6500), gen_reallog_long_stall(c.rng, 11000), gen_reallog(c.rng, 520, nn=2), gen_reallog(c.rng, 4300), gen_reallog(c.rng, 3200, nn=2)]
     run_scenarios(c, "real-commit-log-long-history", scs, samples)
+
+
+def add_stalled_consumer_suites(c, samples):
+    """C15 at the broker level: the log consumer, the scheduler and the real writer behind a recipient that stops
+    reading — whatever was appended is handed over and written, across the truncation points, however long the stall"""
+    scs = [gen_reallog_stalled_recipient(c.rng), gen_reallog_long_stall(c.rng), gen_reallog_stalled_far_behind(c.rng)]
+    if c.tier != "quick":
+        scs += [gen_reallog_long_stall(c.rng, 6500), gen_reallog_long_stall(c.rng, 11000), gen_reallog_backlog(c.rng)]
+    run_scenarios(c, "log-backlog-behind-a-stalled-recipient", scs, samples)
 
 
 # ------------------------------------------------------------------------------------------------ corpus
